@@ -165,6 +165,7 @@ structure Cfg where
   recheck : Bool          -- removeVersion re-checks `ref == 0` under the family lock
   cloneLocked : Bool := true -- CommitFamilyEditLog takes its snapshot and clones INSIDE the version-set mutex
   allocLocked : Bool := true -- storeVersionSet.NextFileNumber takes the version-set mutex
+  findErrReleases : Bool := false -- snapshot.FindReaders' error path calls ReleaseReaders on readers it leaves in s.readers
   threshold : Nat := 2    -- FamilyOption.CompactThreshold
   rollupOn : Bool := false -- StoreOption.Rollup non-empty: a flush marks its output for rollup
   /-- the family's merger (kv.Merger): what a compaction writes for the contents of its inputs.
@@ -465,6 +466,7 @@ inductive Act
   | spawn (k : JKind) (p : Content)
   | jstep (j : Nat)
   | cleanup (fs : List Nat)      -- storeCache.Cleanup closing the entries fs
+  | findErrRelease (i : Nat) (fs : List Nat)  -- variant only: FindReaders' error path releases fs, s.readers keeps them
 deriving Repr
 
 def cleanFiles (s : St) (fs : List Nat) : St := { s with cref := cleanup s.cref fs }
@@ -494,6 +496,13 @@ def step (cfg : Cfg) (s : St) : Act → Option St
   | .spawn k p => some (spawnJob s k p)
   | .jstep j => jstep cfg s j
   | .cleanup fs => if fs.all (canClean s.cref) then some (cleanFiles s fs) else none
+  | .findErrRelease i fs =>
+    -- In the code as it is the error path of FindReaders does nothing: the readers opened before
+    -- the failing table stay retained and recorded (they were `getReader` steps) and are released
+    -- once, by Close. The variant releases them here as well.
+    if cfg.findErrReleases && readerSnap s i && (s.snap i).st = .opened && fs.all (fun f => (s.snap i).held.contains f) then
+      some { s with cref := releaseAll s.cref fs }
+    else none
 
 def run (cfg : Cfg) (s : St) : List Act → Option St
   | [] => some s
@@ -556,6 +565,10 @@ def snapshotClose : List String := ["closed.CompareAndSwap", "version.Release", 
 def commit : List String :=
   ["mutex.Lock", "defer:mutex.Unlock", "vs.persistEditLogs", "familyVersion.GetSnapshot", "defer:snapshot.Close",
    "snapshot.GetCurrent().Clone", "editLog.apply", "familyVersion.appendVersion"]
+/-- `snapshot.FindReaders`: per covering table `cache.GetReader` then record it in `s.readers`
+(one `getReader` step each); the error path does nothing else -/
+def findReaders : List String := ["version.FindFiles", "fileMeta.GetFileNumber", "Table", "cache.GetReader", "append", "append"]
+def findReadersErrPath : List String := []
 def nextFileNumber : List String := ["mutex.Lock", "defer:mutex.Unlock", "nextFileNumber.Inc"]
 /-- `family.rollup` (source side): the `DeleteRollupFile` records of a target are created only after
 that target's `doRollupWork` succeeded; the commit follows the loop; deleteObsoleteFiles is
